@@ -138,7 +138,7 @@ func (sk *SpaceKeeper) GetProofs(ctx context.Context, flags engine.WorkSpaceStat
 	}
 
 	items := make(map[string]*WorkSpace)
-	for _, ws := range getWsByFlags(sk.workSpaceList, flags) {
+	for _, ws := range sk.selectWorkSpaces(flags) {
 		items[ws.id.String()] = ws
 	}
 
@@ -174,7 +174,7 @@ func (sk *SpaceKeeper) GetProofsReader(ctx context.Context, flags engine.WorkSpa
 	}
 
 	items := make(map[string]*WorkSpace)
-	for _, ws := range getWsByFlags(sk.workSpaceList, flags) {
+	for _, ws := range sk.selectWorkSpaces(flags) {
 		items[ws.id.String()] = ws
 	}
 	prw := engine.NewProofRW(ctx, len(items))
@@ -426,7 +426,7 @@ func (sk *SpaceKeeper) DeleteWS(sid string) error {
 
 func (sk *SpaceKeeper) PlotMultiWS(flags engine.WorkSpaceStateFlags) map[string]error {
 	result := make(map[string]error)
-	for _, ws := range getWsByFlags(sk.workSpaceList, flags) {
+	for _, ws := range sk.selectWorkSpaces(flags) {
 		sid := ws.id.String()
 		result[sid] = sk.PlotWS(sid)
 	}
@@ -435,7 +435,7 @@ func (sk *SpaceKeeper) PlotMultiWS(flags engine.WorkSpaceStateFlags) map[string]
 
 func (sk *SpaceKeeper) MineMultiWS(flags engine.WorkSpaceStateFlags) map[string]error {
 	result := make(map[string]error)
-	for _, ws := range getWsByFlags(sk.workSpaceList, flags) {
+	for _, ws := range sk.selectWorkSpaces(flags) {
 		sid := ws.id.String()
 		result[sid] = sk.MineWS(sid)
 	}
@@ -444,7 +444,7 @@ func (sk *SpaceKeeper) MineMultiWS(flags engine.WorkSpaceStateFlags) map[string]
 
 func (sk *SpaceKeeper) StopMultiWS(flags engine.WorkSpaceStateFlags) map[string]error {
 	result := make(map[string]error)
-	for _, ws := range getWsByFlags(sk.workSpaceList, flags) {
+	for _, ws := range sk.selectWorkSpaces(flags) {
 		sid := ws.id.String()
 		result[sid] = sk.StopWS(sid)
 	}
@@ -453,7 +453,7 @@ func (sk *SpaceKeeper) StopMultiWS(flags engine.WorkSpaceStateFlags) map[string]
 
 func (sk *SpaceKeeper) RemoveMultiWS(flags engine.WorkSpaceStateFlags) map[string]error {
 	result := make(map[string]error)
-	for _, ws := range getWsByFlags(sk.workSpaceList, flags) {
+	for _, ws := range sk.selectWorkSpaces(flags) {
 		sid := ws.id.String()
 		result[sid] = sk.RemoveWS(sid)
 	}
@@ -462,7 +462,7 @@ func (sk *SpaceKeeper) RemoveMultiWS(flags engine.WorkSpaceStateFlags) map[strin
 
 func (sk *SpaceKeeper) DeleteMultiWS(flags engine.WorkSpaceStateFlags) map[string]error {
 	result := make(map[string]error)
-	for _, ws := range getWsByFlags(sk.workSpaceList, flags) {
+	for _, ws := range sk.selectWorkSpaces(flags) {
 		sid := ws.id.String()
 		result[sid] = sk.DeleteWS(sid)
 	}
@@ -1300,6 +1300,15 @@ func getWsByID(src []*WorkSpace, sid string) (*WorkSpace, bool) {
 		}
 	}
 	return nil, false
+}
+
+// selectWorkSpaces returns the configured workSpaces in the given states: a private
+// list taken under the state lock, for callers that do not hold it.
+func (sk *SpaceKeeper) selectWorkSpaces(flags engine.WorkSpaceStateFlags) []*WorkSpace {
+	sk.stateLock.RLock()
+	defer sk.stateLock.RUnlock()
+
+	return getWsByFlags(sk.workSpaceList, flags)
 }
 
 func getWsByFlags(src []*WorkSpace, flags engine.WorkSpaceStateFlags) []*WorkSpace {
